@@ -130,6 +130,55 @@ Section SpBase.
       + apply (sum_ext o). intros k _. now rewrite andb_false_r.
   Qed.
 
+  (* ---------- sums selected by a predicate on the whole stored entry ---------- *)
+  Fixpoint gsum (S : ent -> bool) (l : list ent) : R :=
+    match l with [] => 0 | e :: r => if S e then e_val e + gsum S r else gsum S r end.
+
+  Lemma psum_gsum P l : psum P l = gsum (fun e => P (e_row e) (e_col e)) l.
+  Proof. induction l as [|e r IH]; cbn [psum gsum]; [reflexivity|]. now rewrite IH. Qed.
+
+  Lemma gsum_ext S T l : (forall e, In e l -> S e = T e) -> gsum S l = gsum T l.
+  Proof.
+    induction l as [|e r IH]; intros H; cbn [gsum]; [reflexivity|].
+    rewrite (H e (or_introl eq_refl)), IH; [reflexivity|]. intros e' He'. apply H. now right.
+  Qed.
+
+  Lemma gsum_false S l : (forall e, In e l -> S e = false) -> gsum S l = 0.
+  Proof.
+    induction l as [|e r IH]; intros H; cbn [gsum]; [reflexivity|].
+    rewrite (H e (or_introl eq_refl)). apply IH. intros e' He'. apply H. now right.
+  Qed.
+
+  Lemma gsum_app S l1 l2 : gsum S (l1 ++ l2) = gsum S l1 + gsum S l2.
+  Proof.
+    induction l1 as [|e r IH]; cbn [app gsum]; [ring|]. destruct (S e); rewrite IH; ring.
+  Qed.
+
+  (* new positions computed from the old entry, values kept *)
+  Lemma gsum_map_key P (fr fc : ent -> nat) l :
+    psum P (map (fun e => (fr e, fc e, e_val e)) l) = gsum (fun e => P (fr e) (fc e)) l.
+  Proof.
+    induction l as [|e r IH]; cbn [map psum gsum]; [reflexivity|].
+    cbn [e_row e_col e_val fst snd]. now rewrite IH.
+  Qed.
+
+  Lemma gsum_filter S F l : gsum S (filter F l) = gsum (fun e => F e && S e) l.
+  Proof.
+    induction l as [|e r IH]; cbn [filter gsum]; [reflexivity|].
+    destruct (F e); cbn [andb gsum]; now rewrite IH.
+  Qed.
+
+  Lemma gsum_nz S l : gsum S (nz o l) = gsum S l.
+  Proof.
+    unfold nz. induction l as [|e r IH]; cbn [filter gsum]; [reflexivity|].
+    destruct (ris_zero o (e_val e)) eqn:E; cbn [negb gsum]; rewrite IH.
+    - apply (reqb_eq o L) in E. destruct (S e); [rewrite E; ring|reflexivity].
+    - reflexivity.
+  Qed.
+
+  Lemma esum_gsum l i j : esum o l i j = gsum (fun e => key_eq (e_row e) (e_col e) i j) l.
+  Proof. now rewrite esum_psum, psum_gsum. Qed.
+
   (* ---------- the abstraction ---------- *)
   Lemma entry_psum (a : spmat) i j : entry o a i j = psum (fun i' j' => key_eq i' j' i j) (sp_st a).
   Proof. apply esum_psum. Qed.
